@@ -451,3 +451,75 @@ package rueidis
 //@   assert [C46 consecutive-pairs-of-the-same-page] at yield: arg0 == vs[i] && arg1 == vs[i + 1] && i == 2 * calls(yield)
 //@   ensures [C46 every-complete-pair-unless-the-consumer-stops where-defined] (result ==> 2 * calls(yield) + 1 >= len(vs)) && (!result ==> !returned(yield))
 //@   loop 0: invariant [C46] i >= 0 && i == 2 * calls(yield)
+
+// ---------------------------------------------------------------------------------------------
+// C28 — automatic retries happen only when safe and within policy (client.go, retry.go).
+// The decision is split over four places, each under contract:
+//   Completed.IsRetryable   the command is read-only or marked retryable                    (cf & retryableTag)
+//   isRetryable (2 forms)   the error is a transport error or a LOADING reply, the context is not done, the client not closed
+//   WaitOrSkipRetry         RetryDelay did not return a negative delay
+//   Do / DoMulti loops      a re-send happens only after all three said yes (or after errConnExpired: C03), and what is
+//                           finally returned is the last attempt's reply, unchanged
+// calls(Do) counts the attempts of this call.
+
+//@ func conn.Do
+//@   modifies *
+//@ func conn.DoMulti
+//@   modifies *
+//@ func wire.Do
+//@   modifies *
+//@ func wire.DoMulti
+//@   modifies *
+// the retry handler decides and waits; it is assumed not to write the caller's commands, replies or client state
+// (the user-supplied RetryDelayFn is arbitrary code: this is the one thing assumed about it)
+//@ func retryHandler.WaitOrSkipRetry
+// wire.Error only reports the connection's sticky error
+//@ func wire.Error
+
+//@ func singleClient.isRetryable
+//@   ensures [C28 only-transport-errors-and-loading-replies] result ==> (err != nil && err != Nil && err != ErrDoCacheAborted && (typeis(err, *RedisError) ==> ptrof(err, *RedisError).IsLoading()))
+//@   ensures [C28 ordinary-error-replies-are-not-retried] (typeis(err, *RedisError) && ptrof(err, *RedisError) != nil && !ptrof(err, *RedisError).IsLoading()) ==> !result
+//@   ensures [C28 nil-replies-are-not-retried] (err == nil || err == Nil) ==> !result
+
+//@ func isRetryable
+//@   ensures [C28 only-transport-errors-and-loading-replies] result ==> (err != nil && err != Nil && (typeis(err, *RedisError) ==> ptrof(err, *RedisError).IsLoading()))
+//@   ensures [C28 ordinary-error-replies-are-not-retried] (typeis(err, *RedisError) && ptrof(err, *RedisError) != nil && !ptrof(err, *RedisError).IsLoading()) ==> !result
+//@   ensures [C28 nil-replies-are-not-retried] (err == nil || err == Nil) ==> !result
+
+//@ func allRetryable
+//@   ensures [C28 every-command-of-the-batch] result ==> (forall k int :: {multi[k]} (0 <= k && k < len(multi)) ==> retryableCmd(multi[k]))
+//@   ensures [C28 false-names-a-command-that-is-not-retryable where-defined] !result ==> (0 <= rangeindex + 1 && rangeindex + 1 < len(multi) && !retryableCmd(multi[rangeindex + 1]))
+//@   loop 0: invariant [C28] rangeindex >= -1 && rangeindex < len(multi) && (forall k int :: {multi[k]} (0 <= k && k <= rangeindex) ==> retryableCmd(multi[k]))
+
+//@ func retryer.WaitOrSkipRetry
+//@   modifies *
+//@   ensures [C28 no-retry-on-a-negative-delay] returned(RetryDelay) < 0 ==> !result
+//@   ensures [C28 zero-delay-retries-at-once] returned(RetryDelay) == 0 ==> result
+
+//@ immutable [C28] singleClient retry hasLftm
+//@ func singleClient.Do
+//@   modifies *
+//@   assert [C28 retry-is-considered-only-for-an-enabled-retryable-command-after-a-retryable-error] at WaitOrSkipRetry: c.retry && cmd.IsRetryable() && returned(isRetryable) && arg2 == attempts
+//@   ensures [C28 the-last-attempts-reply-is-returned-unchanged] resp == returned(Do)
+//@   loop 0: repeat-only-if [C28 resend-only-after-expiry-or-an-approved-retry] returned(Error) == errConnExpired || (c.retry && cmd.IsRetryable() && returned(isRetryable) && returned(WaitOrSkipRetry))
+
+//@ func singleClient.DoMulti
+//@   modifies *
+//@   assert [C28 retry-is-considered-only-for-an-enabled-all-retryable-batch-after-a-retryable-error] at WaitOrSkipRetry: c.retry && (forall k int :: {multi[k]} (0 <= k && k < len(multi)) ==> retryableCmd(multi[k])) && returned(isRetryable) && arg2 == attempts
+//@   loop 0: repeat-only-if [C28 resend-only-after-an-approved-retry] c.retry && returned(allRetryable) && returned(isRetryable) && returned(WaitOrSkipRetry)
+
+//@ immutable [C28] dedicatedSingleClient retry
+//@ func dedicatedSingleClient.Do
+//@   modifies *
+//@   assert [C28 retry-is-considered-only-for-an-enabled-retryable-command-after-a-retryable-error] at WaitOrSkipRetry: c.retry && cmd.IsRetryable() && returned(isRetryable) && arg2 == attempts
+//@   loop 0: repeat-only-if [C28 resend-only-after-an-approved-retry] c.retry && cmd.IsRetryable() && returned(isRetryable) && returned(WaitOrSkipRetry)
+
+//@ immutable [C28] sentinelClient retry hasLftm
+//@ func sentinelClient.isRetryable
+//@   ensures [C28 only-transport-errors-and-loading-replies] result ==> (err != nil && err != Nil && err != ErrDoCacheAborted && (typeis(err, *RedisError) ==> ptrof(err, *RedisError).IsLoading()))
+//@   ensures [C28 ordinary-error-replies-are-not-retried] (typeis(err, *RedisError) && ptrof(err, *RedisError) != nil && !ptrof(err, *RedisError).IsLoading()) ==> !result
+//@   ensures [C28 nil-replies-are-not-retried] (err == nil || err == Nil) ==> !result
+//@ func sentinelClient.Do
+//@   modifies *
+//@   assert [C28 retry-is-considered-only-for-an-enabled-retryable-command-after-a-retryable-error] at WaitOrSkipRetry: c.retry && cmd.IsRetryable() && returned(isRetryable) && arg2 == attempts
+//@   loop 0: repeat-only-if [C28 resend-only-after-expiry-or-an-approved-retry] returned(Error) == errConnExpired || (c.retry && cmd.IsRetryable() && returned(isRetryable) && returned(WaitOrSkipRetry))
